@@ -52,6 +52,48 @@ theorem C05_signer_source_shape :
     signerRawTx = "batch.BatchTX" ∧ signerMuSig2Tx = "batch.BatchTX" ∧
     signerMuSig2PrevOuts = "batch.PreviousOutputs" := by decide
 
+/-- (R) what `batchStorer.StorePendingBatch` stages per account is built from exactly these modifiers, and
+each modifier is a single unconditional assignment of its field (a modifier that silently declines to apply –
+e.g. an `ExpiryModifier` that only ever extends – would stage something else than the verified batch says):
+re-created: state, outpoint `(BatchTX.TxHash(), OutpointIndex)`, batch key + 1, then `NewExpiry` iff non-zero
+(and supported) and `NewVersion` iff greater (and supported); used up: state only; always: ending balance,
+height hint, latest tx.  `stagedRow` is the model of this table. -/
+theorem C05_storer_modifier_shape :
+    accountModifierBodies =
+      [("ExpiryModifier", ["account.Expiry = expiry"]),
+       ("HeightHintModifier", ["account.HeightHint = heightHint"]),
+       ("IncrementBatchKey", ["account.BatchKey = poolscript.IncrementKey(account.BatchKey)"]),
+       ("LatestTxModifier", ["account.LatestTx = tx"]),
+       ("OutPointModifier", ["account.OutPoint = op"]),
+       ("StateModifier", ["account.State = state"]),
+       ("ValueModifier", ["account.Value = value"]),
+       ("VersionModifier", ["account.Version = version"])] ∧
+    storerRecreatedModifiers =
+      ["account.StateModifier(account.StatePendingBatch)",
+       "account.OutPointModifier(wire.OutPoint{ Index: uint32(diff.OutpointIndex), Hash: batch.BatchTX.TxHash(), })",
+       "account.IncrementBatchKey()"] ∧
+    storerRecreatedConditional =
+      [("batch.Version.SupportsAccountExtension() && diff.NewExpiry != 0", ["account.ExpiryModifier(diff.NewExpiry)"]),
+       ("batch.Version.SupportsAccountTaprootUpgrade() && diff.NewVersion > acct.Version",
+        ["account.VersionModifier(diff.NewVersion)"])] ∧
+    storerClosedModifiers = ["account.StateModifier(account.StatePendingClosed)"] ∧
+    storerCommonModifiers =
+      ["account.ValueModifier(diff.EndingBalance)", "account.HeightHintModifier(batch.HeightHint)",
+       "account.LatestTxModifier(batch.BatchTX)"] := by decide
+
+/-- the staged row of a re-created account carries the diff's new outpoint, and the diff's new expiry whenever
+that is non-zero – also when it is LOWER than the stored one (the verifier bounds `NewExpiry` only from above,
+and the re-created output commits to it) -/
+theorem C05_staged_row_follows_diff (db : DB) (d : Diff) (r : Acct) (op : OutPoint)
+    (h : RowFor db d r) (hop : d.newOutpoint = some op) :
+    r.outpoint = op ∧ r.key = d.acct ∧ (d.newExpiry ≠ 0 → r.expiry = d.newExpiry) ∧
+    (∀ o, d.newOut = some o → r.out = o) := by
+  obtain ⟨a, ha, hr⟩ := h
+  subst hr
+  have hk := getAccount_key _ _ _ ha
+  simp [stagedRow, hop, hk]
+  exact ⟨fun h1 h2 => absurd h2 h1, fun o ho => by simp [ho]⟩
+
 /-! ## Histories -/
 
 /-- **Invariant.**  After every history the manager's pending batch is (up to the volatile Sign-message
@@ -419,11 +461,11 @@ theorem C05_accepted_proposal_replaces_pending (verifyOk : St → Batch → Bool
 /-! ## Non-vacuity -/
 
 namespace Ex
-def accts : List Acct := [⟨1, 10, 0, 20⟩, ⟨2, 11, 1, 21⟩]
+def accts : List Acct := [⟨1, 10, 0, 20, 5000⟩, ⟨2, 11, 1, 21, 5000⟩]
 def orders : List Ord := [⟨1, 1, [], []⟩, ⟨2, 2, [], [3]⟩]
 def b : Batch :=
   { id := 5, tid := 1, tx := ⟨[99, 10, 11], [30, 31, 32], 0⟩,
-    diffs := [⟨1, some 40, 0, some 31⟩, ⟨2, none, 1, none⟩], matched := [(1, 1), (2, 1)],
+    diffs := [⟨1, some 40, 0, some 31, 4900⟩, ⟨2, none, 1, none, 0⟩], matched := [(1, 1), (2, 1)],
     vflag := true, snapOk := true, nonces := [], prevOuts := [] }
 /-- a re-proposal with the same id that the verifier rejects -/
 def bBad : Batch := { b with tid := 2, tx := ⟨[99, 10, 11], [30, 31, 33], 0⟩, vflag := false }
